@@ -13,6 +13,7 @@ V  : the C files are compiled with gcc into .scratch and called through ctypes; 
 """
 import ctypes
 import os
+import re
 import shutil
 import subprocess
 import time
@@ -181,7 +182,10 @@ def exact_func(d, i, xi, fl4):
 def exact_full(d1, d2, i, j, fl8):
     A = anti(d1, d2, i, j)
     f = flag_of(i, fl8[:4]) * flag_of(j, fl8[4:])
-    return f * (ev(A, F(1)) - ev(A, F(-1))), abs(f) * 2 * absev(A, F(1))
+    v = f * (ev(A, F(1)) - ev(A, F(-1)))
+    # the table entry is a literal times flags (no polynomial evaluation in C): the scale is the value itself,
+    # and an exact zero must be returned as exactly 0
+    return v, abs(v)
 
 
 def exact_sub(d1, d2, i, j, x1, x2, fl8):
@@ -680,65 +684,75 @@ def coefficient_scan(ctx, limit=5):
     return out
 
 
+def _search_families(ctx, clib, fams, why):
+    rng = ctx.rng
+    for kind, name in fams:
+        for i in range(30):
+            for j in (range(30) if kind not in ('func', 'vec') else [None]):
+                for (a, b) in SEARCH_POINTS[:ctx.scale(3, 5)]:
+                    fl = [fs(F(rng.randint(3, 9), 4)) for _ in range(8 if kind not in ('func', 'vec') else 4)]
+                    if kind in ('func', 'vec'):
+                        call = dict(kind=kind, fn=name, i=i, xi=fs(b), flags=fl)
+                    elif kind == 'full':
+                        call = dict(kind=kind, fam=name, i=i, j=j, flags=fl)
+                    elif kind == 'sub':
+                        call = dict(kind=kind, fam=name, i=i, j=j, xi1=fs(a), xi2=fs(b), flags=fl)
+                    else:
+                        call = dict(kind=kind, fam=name, i=i, j=j, c0=fs(a / 2), c1=fs(b), flags=fl)
+                    ctx.evaluations += 1
+                    got = clib.run(call)
+                    exact, scale = exact_of(call)
+                    diff = abs(F(got) - exact)
+                    if diff > VTOL * scale + F(1, 10 ** 300):
+                        det = dict(call=call, c_call=c_text(call), c_result=got, exact=float(exact),
+                                   exact_rational=fs(exact), abs_scale=float(scale),
+                                   rel_to_scale=float(diff / scale) if scale else None, after=why)
+                        report(ctx, 'violation', det, 'failing-input search after: ' + why)
+                        return True
+                    if kind == 'full':
+                        break
+    return False
+
+
+def _search_gauss(ctx, clib, why):
+    for n in range(2, 65):
+        pts, wts = clib.gauss(n)
+        X, W = [F(x) for x in pts], [F(w) for w in wts]
+        t = list(W)
+        for k in range(2 * n):
+            s = sum(t)
+            ex = F(2, k + 1) if k % 2 == 0 else F(0)
+            if abs(s - ex) > F(2, 10 ** 15):
+                ctx.violation('leggauss_quad(%d) does not integrate xi^%d exactly: sum w x^k = %r, exact %r [after: %s]'
+                              % (n, k, float(s), float(ex), why),
+                              dict(c_call='leggauss_quad(%d, points, weights)' % n, monomial_degree=k,
+                                   quadrature=float(s), exact=float(ex), points=pts, weights=wts),
+                              identity='gauss:%d' % n)
+                return True
+            t = [a * x for a, x in zip(t, X)]
+    return False
+
+
 def search(ctx, reason):
     """a proof obligation or the translator broke: find a concrete C call on which the property fails"""
     why = ' | '.join(reason)[:400]
+    text = ' '.join(reason)
     clib = CLib(ctx)
     found = False
     try:
-        rng = ctx.rng
-        # implementation arm: compiled C vs exact, every (family, i, j) at several points with generic flags
-        for kind, name in families():
-            for i in range(30):
-                for j in (range(30) if kind not in ('func', 'vec') else [None]):
-                    for (a, b) in SEARCH_POINTS[:ctx.scale(3, 5)]:
-                        fl = [fs(F(rng.randint(3, 9), 4)) for _ in range(8 if kind not in ('func', 'vec') else 4)]
-                        if kind in ('func', 'vec'):
-                            call = dict(kind=kind, fn=name, i=i, xi=fs(b), flags=fl)
-                        elif kind == 'full':
-                            call = dict(kind=kind, fam=name, i=i, j=j, flags=fl)
-                        elif kind == 'sub':
-                            call = dict(kind=kind, fam=name, i=i, j=j, xi1=fs(a), xi2=fs(b), flags=fl)
-                        else:
-                            call = dict(kind=kind, fam=name, i=i, j=j, c0=fs(a / 2), c1=fs(b), flags=fl)
-                        ctx.evaluations += 1
-                        got = clib.run(call)
-                        exact, scale = exact_of(call)
-                        diff = abs(F(got) - exact)
-                        if diff > VTOL * scale + F(1, 10 ** 300):
-                            det = dict(call=call, c_call=c_text(call), c_result=got, exact=float(exact),
-                                       exact_rational=fs(exact), abs_scale=float(scale),
-                                       rel_to_scale=float(diff / scale) if scale else None, after=why)
-                            report(ctx, 'violation', det, 'failing-input search after: ' + why)
-                            found = True
-                            break
-                        if kind == 'full':
-                            break
-                    if found:
-                        break
-                if found:
-                    break
-            if found:
-                break
-        if not found:
-            for n in range(2, 65):
-                pts, wts = clib.gauss(n)
-                X, W = [F(x) for x in pts], [F(w) for w in wts]
-                t = list(W)
-                for k in range(2 * n):
-                    s = sum(t)
-                    ex = F(2, k + 1) if k % 2 == 0 else F(0)
-                    if abs(s - ex) > F(2, 10 ** 15):
-                        ctx.violation('leggauss_quad(%d) does not integrate xi^%d exactly: %r vs %r [after: %s]'
-                                      % (n, k, float(s), float(ex), why),
-                                      dict(c_call='leggauss_quad(%d, points, weights)' % n, monomial_degree=k,
-                                           quadrature=float(s), exact=float(ex), points=pts, weights=wts),
-                                      identity='gauss:%d' % n)
-                        found = True
-                        break
-                    t = [a * x for a, x in zip(t, X)]
-                if found:
-                    break
+        # implementation arm: compiled C vs exact, every (family, i, j) at several points with generic flags;
+        # families whose generated module is named in the build error go first
+        fams = families()
+        hit = set()
+        for m in re.finditer(r'Gen/CTables/(Full|Sub|Map)([A-Za-z]+?)(?:B\d+)?(?:Check|All)\.lean', text):
+            hit.add(({'Full': 'full', 'Sub': 'sub', 'Map': 'map'}[m.group(1)], m.group(2).lower()))
+        if 'FuncCheck' in text:
+            hit |= set(f for f in fams if f[0] in ('func', 'vec'))
+        fams = [f for f in fams if f in hit] + [f for f in fams if f not in hit]
+        if 'LegGauss' in text:
+            found = _search_gauss(ctx, clib, why) or _search_families(ctx, clib, fams, why)
+        else:
+            found = _search_families(ctx, clib, fams, why) or _search_gauss(ctx, clib, why)
         if not found:
             # model arm: the source text itself, coefficient by coefficient (below float resolution of a C call)
             try:
